@@ -253,7 +253,8 @@ func c33Report(r *evid.Run, ci int, counts map[string]int, sigs []string, sample
 // ---- queries
 
 func c33Queries(r *evid.Run, t *testing.T, ci int, rng *rand.Rand) {
-	limits := []int{100, 128, 200, 256, 512, 1024, 2000}
+	// (limits below any query's size, zero and negative included: nothing fits, nothing may be sent)
+	limits := []int{100, 128, 200, 256, 512, 1024, 2000, 100, 128, 200, 256, 512, 1024, 2000, 0, -1, 10, 30}
 	L := limits[rng.Intn(len(limits))]
 	nodeName := []string{"n1", "a-much-longer-node-name-0001", "x"}[rng.Intn(3)]
 	var viols []c33Viol
@@ -385,7 +386,7 @@ func c33Queries(r *evid.Run, t *testing.T, ci int, rng *rand.Rand) {
 			if !cal.accepted || cal.size == 0 {
 				counts["query_shapes_larger_than_limit"]++
 				// everything of this shape must be rejected; probe a few sizes anyway
-				for _, p := range []int{1, 10, L} {
+				for _, p := range []int{1, 10, max(L, 0)} {
 					attempt(sh.name, p, sh.params, 0)
 				}
 				continue
@@ -612,7 +613,7 @@ func TestC33(t *testing.T) {
 			r.Inconclusive(fmt.Sprintf("boundary class %s observed only %d times", k, r.Counter(k)))
 		}
 	}
-	r.Finish("boundary search around every limit: UserEvent with configured limits 64..9216 (and 9217/12000, which Create refuses) x 9 name lengths x {name+payload, encoded size} at limit-2..limit+2 x Lamport time widths; Query with QuerySizeLimit 100..2000 x 4 parameter shapes x encoded size limit-3..limit+3 (overhead calibrated on the node's own encoding); Query.Respond with QueryResponseSizeLimit 64..4096 x ids/Lamport widths x encoded size limit-2..limit+2, relay factor 0..members. Sizes are taken from the bytes drained from the node's broadcast queues and received by puppets. Non-trivial = every attempt; distinct by (limit, shape, offset from the limit, outcome)",
+	r.Finish("boundary search around every limit: UserEvent with configured limits 64..9216 (and 9217/12000, which Create refuses) x 9 name lengths x {name+payload, encoded size} at limit-2..limit+2 x Lamport time widths; Query with QuerySizeLimit 100..2000 (and -1, 0, 10, 30, below any query's size) x 4 parameter shapes x encoded size limit-3..limit+3 (overhead calibrated on the node's own encoding); Query.Respond with QueryResponseSizeLimit 64..4096 x ids/Lamport widths x encoded size limit-2..limit+2, relay factor 0..members. Sizes are taken from the bytes drained from the node's broadcast queues and received by puppets. Non-trivial = every attempt; distinct by (limit, shape, offset from the limit, outcome)",
 		r.N(1500, 4000),
 		"'sent' for user events and queries is observed as 'queued for gossip' (passive memberlist; the harness drains the queues), for responses as packets received by puppets",
 		"acks are not query responses in the sense of the statement and are not checked against QueryResponseSizeLimit; relay envelopes are")
